@@ -12,9 +12,10 @@ PROPS = {
              "(forced and model-free schedules, no injected obstacle) the handle is dropped and the directory reopened: keys, sizes, reference counts and statistics unchanged",
         assumptions=["stats.index.serialized_size_bytes is specified as the length of the index file, not compared across restarts"]),
     "C03": dict(
-        suites=["crash"], tags={"recover_open", "recover_state", "usable"}, crash_corr={"image", "recovery"},
+        suites=["crash", "conc"], tags={"recover_open", "recover_state", "usable", "crash_conc"}, crash_corr={"image", "recovery"},
         rule="real process killed before every effective filesystem call of every history (incl. first-time init and "
-             "crash during recovery via close/open in the history); distinct = distinct crash images",
+             "crash during recovery via close/open in the history); distinct = distinct crash images; plus crash images of CONCURRENT runs (K6 programs, every step of the forced "
+             "schedules and of a third of the model-free rounds, all threads parked): recovery = the index of that instant, no missing or corrupted blob",
         assumptions=["process-kill model: completed calls persist, a call is atomic"]),
     "C06": dict(
         suites=["seq", "crash"], tags={"cas_content", "cas_immutable", "reader_stable"}, corr={"trace", "dir"}, crash_corr={"image"},
